@@ -75,7 +75,7 @@ def random_doubles(rnd, n):
 
 def run(rep):
     quick = rep.tier == "quick"
-    res = run_tlc(rep.pid, "C18", ENUM_CFG, env={"TIER": rep.tier}, timeout=1800, tag="enum", heap="4g")
+    res = run_tlc(rep.pid, "C18", ENUM_CFG, env={"TIER": rep.tier}, timeout=(1800 if rep.tier == "quick" else 7200), tag="enum", heap="4g")
     rep.add_tlc("C18.Enum+Laws", res)
     cases = expand(res.records)
     if len(cases) < 5000:
